@@ -238,6 +238,7 @@ class StateMachine(metaclass=StateMachineMetaclass):
         if isinstance(engine, SyncEngine) and self._callbacks.has_async_callbacks:
             self._engine = self._get_engine(engine._rtc)
             self._engine._external_queue = engine._external_queue
+            self._engine._initial_trigger = getattr(engine, "_initial_trigger", None)
         return self
 
     def _repr_html_(self):
